@@ -1,9 +1,11 @@
 package props
 
 import (
+	"bytes"
 	"fmt"
 	"io"
 	"math"
+	"path/filepath"
 	"strconv"
 	"strings"
 
@@ -312,6 +314,84 @@ func c01Families(tier string) []explore.Family {
 		c01Check(r, "deep-value", f, map[string]any{"a": a, "b": b, "l": []any{a, b}}, func() any {
 			return map[string]any{"template": f, "a and b": fmt.Sprintf("%s nested %d levels around 1", sh, d)}
 		})
+	}})
+
+	// 2d. configurations and entry points: default / strict-variables / custom-delimiter engines; pages of 1-4 lines parsed
+	// with and without a path and a starting line, including cached partials of 1-4 lines that succeed or fail (undefined
+	// variable, filter error, division by zero, syntax error) on each of their lines; rendered through Render,
+	// RenderString and FRender - output or a SourceError whose methods work, whatever line and path arithmetic is done
+	type cfgEngine struct {
+		name string
+		mk   func() *liquid.Engine
+		sp   func(string) string
+	}
+	ident := func(s string) string { return s }
+	angle := strings.NewReplacer("{{", "<<", "}}", ">>", "{%", "<%", "%}", "%>").Replace
+	cfgEngines := []cfgEngine{{"default", func() *liquid.Engine { return liquid.NewEngine() }, ident},
+		{"strict", func() *liquid.Engine { e := liquid.NewEngine(); e.StrictVariables(); return e }, ident},
+		{"strict+delims", func() *liquid.Engine {
+			e := liquid.NewEngine().Delims("<<", ">>", "<%", "%>")
+			e.StrictVariables()
+			return e
+		}, angle}}
+	failLines := []string{"ok {{ x }}", "{{ undefined_name }}", "{{ x | nosuchfilter }}", "{{ 1 | divided_by: 0 }}", "{% if %}", "{{ undefined_name.a.b }}"}
+	pageShapes := []string{"INC", "a\nINC", "INC\nb\nc", "a\nb\nINC\nd", "{% if x %}\nINC{% endif %}", "{% for i in (1..2) %}INC\n{% endfor %}"}
+	cfgLocs := []struct {
+		path string
+		line int
+	}{{"", 0}, {"", 1}, {"site/page.html", 1}, {"site/page.html", 5}, {"/abs/page.html", 0}}
+	nPart := 4 // the failing line is line 1..4 of the partial (0: the partial has no failing line)
+	fams = append(fams, explore.Family{Name: "configurations-and-entry-points", Count: int64(len(cfgEngines) * len(failLines) * (nPart + 1) * len(pageShapes) * len(cfgLocs) * 3), Run: func(i int64, r *explore.Rec) {
+		rx := radix{i}
+		entry, loc, page, at, fl, ce := rx.next(3), cfgLocs[rx.next(len(cfgLocs))], pageShapes[rx.next(len(pageShapes))], rx.next(nPart+1), failLines[rx.next(len(failLines))], cfgEngines[rx.next(len(cfgEngines))]
+		var lines []string
+		for k := 1; k <= nPart; k++ {
+			if k == at {
+				lines = append(lines, fl)
+			} else {
+				lines = append(lines, fmt.Sprintf("p%d {{ x }}", k))
+			}
+		}
+		partial := ce.sp(strings.Join(lines, "\n"))
+		src := ce.sp(strings.ReplaceAll(page, "INC", `{% include "part.inc" %}`))
+		desc := func() any {
+			return map[string]any{"engine": ce.name, "page": src, "part.inc": partial, "path": loc.path, "start_line": loc.line, "entry": []string{"Render", "RenderString", "FRender"}[entry]}
+		}
+		r.Eval()
+		var o Outcome
+		o.Panic = explore.Safe(func() {
+			eng := ce.mk()
+			dir := filepath.Dir(loc.path)
+			if loc.path == "" {
+				dir = ""
+			}
+			if _, err := eng.ParseTemplateAndCache([]byte(partial), filepath.Join(dir, "part.inc"), 1); err != nil && at == 0 {
+				o.Err = err
+				return
+			}
+			tpl, err := eng.ParseTemplateLocation([]byte(src), loc.path, loc.line)
+			if err != nil {
+				o.Err = err
+				return
+			}
+			b := map[string]any{"x": "X"}
+			switch entry {
+			case 0:
+				out, err := tpl.Render(b)
+				o.Out, o.Err = string(out), err
+			case 1:
+				out, err := tpl.RenderString(b)
+				o.Out, o.Err = out, err
+			default:
+				var buf bytes.Buffer
+				if err := tpl.FRender(&buf, b); err != nil {
+					o.Err = err
+				} else {
+					o.Out = buf.String()
+				}
+			}
+		})
+		c01Judge(r, "configuration", o, desc)
 	}})
 
 	// 3. syntax space
